@@ -600,7 +600,7 @@ def chooser_policy(rng, sc):
     change = sorted(rng.sample(range(1, 400), 3))
     if style == "slow_source":
         prio["tok"] = -1
-    elif style == "slow_observers":
+    elif style in ("slow_observers", "starve_observers"):
         for n in ("o1", "o2", "o3"):
             prio[n] = -1
     elif style == "slow_saver":
@@ -614,6 +614,12 @@ def chooser_policy(rng, sc):
             if t and rng.random() < .8:
                 return rng.choice(t)
             return rng.choice(en)
+        if style == "starve_observers":
+            # observers run only when nobody else can: their inboxes hold every message of the stream before the first one is taken
+            rest = [e for e in en if e[0] not in ("o1", "o2", "o3")]
+            pool = rest or en
+            nt = [e for e in pool if e[1] != "timeout"]
+            return (nt or pool)[0]
         if s.steps in change:
             prio[rng.choice(names)] = rng.random() - 0.5
         if rng.random() < .1:
@@ -898,6 +904,11 @@ def long_scenarios(rng, tier, prop):
                         saver=(prop == "C13" and n < 5000), cache_blocks=rng.choice([0, 3]), stop_after=stop, tail=1, seed=rng.random(),
                         style=["random", "slow_observers", "prio", "slow_source", "random"][k_ % 5],     # slow observers: backlogs of hundreds of messages
                         validator="custom", max_steps=80 * n + 10000, long=True))
+    # a backlog on purpose: 700 detections sent before any observer takes one (a bounded inbox, or a sender that gives up, shows here)
+    if prop != "C14":
+        out.append(dict(pat=[True, False] * 700, B=1, sr=100, silence=0.03, sw=1, ch=1, p=(1, 1, 0, False, False),
+                        obs=["rec", "print"] if prop != "C13" else ["rec", "regsave"], saver=False, cache_blocks=0, stop_after=None, tail=1, seed=0.25,
+                        style="starve_observers", validator="custom", max_steps=80 * 700 + 10000, long=True))
     return out
 
 
